@@ -31,11 +31,16 @@ structure S where
   ea : Option EArray.EA := none
   eq : Option EQueue.EQ := none
   sm : Option SeqMap.SM := none
+  mpSize : Nat := 4                     -- cache size of the pool in use (`MPOOL(name, type, size)`)
   mp : MPool.MP := MPool.init 4
   inUse : List Nat := []
 
 /-- size of the objects the pool hands out -/
 def objSize : Nat := 40
+
+/-- the cache sizes the harness instantiates `MPOOL` with (`mp_init <size>`; 4 when a case starts).  The pool model
+`MPool` and its theorems take the size as a parameter (`MPool.init size`, every size). -/
+def poolSizes : List Nat := [1, 2, 3, 4]
 
 /-! ## typed output -/
 
@@ -127,7 +132,7 @@ def poolExit (s : S) : S :=
   let (_, m) := MPool.atexit s.mp s.m
   -- the harness itself releases the objects still in use
   let m := s.inUse.foldl (fun m _ => m.free false) m
-  { s with m := m, mp := MPool.init 4, inUse := [] }
+  { s with m := m, mp := MPool.init s.mpSize, inUse := [] }
 
 /-- an operation on the array, if there is one (else `skip`) and the record length is positive (else `bad`) -/
 def onEa (s : S) (reclen : Option Nat) (bad : Word) (k : EArray.EA → RecLen → S × Out) : S × Out :=
@@ -297,6 +302,11 @@ def stepOp (s : S) (op : Op) : S × Out :=
       let m' := SeqMap.free x m
       ({ s with m := m', sm := none }, .freed (l2c m m'))
   -- -------------------------------------------------------------- object pool
+  | .mpInit size =>
+    -- end the pool in use (exit handler, objects in use released by the harness), take the one of cache size `size`
+    if !poolSizes.contains size then (s, .word .badOp) else
+    let s' := poolExit s
+    ({ s' with mpSize := size, mp := MPool.init size }, .freed (l2c m s'.m))
   | .mpMalloc =>
     match MPool.malloc s.mp objSize m with
     | (some x, p', m') => ({ s with m := m', mp := p', inUse := x :: s.inUse }, .mp (rf m m') (.obj x) (mpL2 p' m m'))
